@@ -152,6 +152,8 @@ def gen_cases(run, n):
         if form.startswith("derive"):
             opts["mode"] = "derive"
         c = C.make_case(cid, schema, doc, rng, options=opts, features=feats)
+        if i % 2 == 1:
+            c["hostile_scope"] = True       # the consumer's module has its own `Result` alias and `Error` type
         if form in ("library", "library-one-op", "cli"):
             c["options"]["mode"] = "cli"
         if form == "derive-noserde":
